@@ -393,7 +393,27 @@ def r11_7(ctx):
     ctx.floor(n, 3, "test-and-set sites")
 
 
-RULES = [r11_1, r11_2, r11_3, r11_4, r11_5, r11_6, r11_7]
+def r11_8(ctx):
+    from .common import return_forms
+    ctx.rule("R11.8", "per-use state is not shared between threads: Console.capture() (and Console.pager / status-like factories that hand out a context manager holding a result slot) return an object constructed in that very call - never one stored on the console, which every thread would share (one thread's captured text overwriting another's)")
+    c = ctx.repo.cls("console:Console")
+    n = 0
+    for name in ("capture",):
+        f = c.method(name)
+        if f is None:
+            raise AnchorVanished(f"Console.{name} not found")
+        forms = return_forms(f, depth=0)
+        for facts, v in forms:
+            n += 1
+            fresh = isinstance(v, ast.Call) and isinstance(v.func, ast.Name) and v.func.id[:1].isupper()
+            ctx.check(fresh, f.fq, norm(v)[:120], f.where, f"returns a new `{norm(v.func) if fresh else '?'}` per call",
+                      f"Console.{name}() returns `{norm(v)[:100]}`, an object that outlives the call (stored on the console): its result slot is shared by every thread using the console, so one thread's capture can return another thread's text")
+        stores = [x for x in walk_local(f.node) if isinstance(x, ast.Assign) and any(isinstance(t, ast.Attribute) and isinstance(t.value, ast.Name) and t.value.id == "self" for t in x.targets)]
+        ctx.check(not stores, f.fq, "no store on self", f.where, "the factory keeps nothing on the console", f"Console.{name}() stores state on the console ({[short(x) for x in stores][:2]})")
+    ctx.floor(n, 1, "factory return forms")
+
+
+RULES = [r11_1, r11_2, r11_3, r11_4, r11_5, r11_6, r11_7, r11_8]
 
 
 def _xcheck(ctx):
